@@ -3,6 +3,7 @@
 //@ item src/sources/ping/eventfd.rs / const INCREMENT_CLOSE props=C03
 //@ enditem
 //@ item src/sources/ping/eventfd.rs / struct ArcAsFd props=C03
+//@ rw R6 1 <<struct ArcAsFd>> => <<pub(crate) struct ArcAsFd>>
 //@ enditem
 //@ region arcasfd_axiom props=C03
 /// ASSUMED: the descriptor of the newtype wrapper is the descriptor of what it wraps
@@ -58,6 +59,8 @@ fn ping_event_closure<C: FnMut((), &mut ())>(fd: &mut NoIoDrop<ArcAsFd>, mut cal
 //@ region pingsource_specs props=C03,C16
 impl PingSource {
     pub closed spec fn inner(&self) -> Generic<ArcAsFd> { self.event }
+    /// the eventfd this source polls (ghost; for users outside this module, which cannot name ArcAsFd)
+    pub closed spec fn raw(&self) -> int { self.event.raw() }
 }
 //@ endregion
 //@ open src/sources/ping/eventfd.rs / impl EventSource for PingSource
